@@ -261,7 +261,8 @@ class C07(SeqProp):
     rule = ("each scenario builds 1-8 collectors (counters, gauges, histograms, pulling gauges, vectors with 0-4 children) grouped in "
             "1-3 families that share name/help/label names and differ in constant-label values, updates them, registers the same set "
             "in different orders on 2-3 fresh registries with the same prefix and 0-4 common labels, and gathers all registries back "
-            "to back (1-3 rounds); non-trivial = at least two gathers and at least two samples gathered; distinct = distinct scenario text")
+            "to back (1-3 rounds; between rounds more children / updates, a vector reset or a child removed by value list or by label map; after an "
+            "unregister a newcomer of the same name with another help / label set, which must be refused, and optionally the old collector coming back); non-trivial = at least two gathers and at least two samples gathered; distinct = distinct scenario text")
     assumptions = ["HashMap iteration order is exercised through fresh maps (fresh RandomState) per registry / vector, not controlled",
                    "collectors of different kinds under one name are C14's known finding; C07's generator does not produce them "
                    "(the C14 witness in the corpus is checked for everything but the family type)",
